@@ -388,6 +388,30 @@ func genC09(e *emitter, tier string, seed uint64) {
 			}
 		}
 	}
+	// (2a') the same with MEGABYTES of real data behind the claim: a reader that starts to trust the length field once
+	//       "enough" of it has really arrived (16 chunks, 1 MiB, …) reserves the rest in one go
+	megs := []int{1<<20 + 200}
+	if !quick {
+		megs = []int{1 << 20, 1<<20 + 200, 2<<20 + 1, 4<<20 + 77}
+	}
+	for _, c := range []uint64{1<<64 - 1, 1 << 40, 1 << 28} {
+		for _, follow := range megs {
+			tail := r.bytes(follow)
+			b := append([]byte{1, 0, 0, 0, 1}, r.bytes(36)...)
+			b = append(append(b, nonMinimalVarint(c, 9)...), tail...)
+			o := append(le64b(5), append(nonMinimalVarint(c, 9), tail...)...)
+			for _, x := range []struct {
+				entry string
+				b     []byte
+			}{{"tx", b}, {"output", o}} {
+				if quick && c == 1<<40 && x.entry == "output" {
+					continue
+				}
+				e.runIsolated("C09.alloc", strconv.Itoa(len(x.b)), x.entry, hex.EncodeToString(x.b))
+				e.note("crafted-megabyte-tail." + x.entry)
+			}
+		}
+	}
 	// (2b) counts whose product with a plausible per-element size wraps modulo 2^64 to something small: a bounds test of
 	//      the form count*size <= remaining passes although the count is astronomically large
 	var sizes []uint64
